@@ -55,7 +55,7 @@ def simulate(L, K, lines, thrown=()):
     def scribbled(t, ctor=False):
         """moved-from instrumented objects are filled with 0xEE: by the move ASSIGNMENT of TTrk,
         by the move CONSTRUCTOR of TTrk and TTrkC"""
-        tys = (lay.TTRK, lay.TTRKC) if ctor else (lay.TTRK,)
+        tys = (lay.TTRK, lay.TTRKC) if ctor else (lay.TTRK, lay.TTRKMA)
         return tuple(tuple((238,) * p.size for _ in f) if p.ty in tys else f for f, p in zip(t, L))
 
     def shape(t):
@@ -230,7 +230,7 @@ def simulate(L, K, lines, thrown=()):
                 d.elems[a[1]] = y
                 if a[4] == 2 and not (a[0] == a[2] and a[1] == a[3]):
                     # moved-from objects of the instrumented type are scribbled with 0xEE
-                    sv.elems[a[3]] = tuple(tuple((238,) * p.size for _ in f) if p.ty == lay.TTRK else f for f, p in zip(y, L))
+                    sv.elems[a[3]] = tuple(tuple((238,) * p.size for _ in f) if p.ty in (lay.TTRK, lay.TTRKMA) else f for f, p in zip(y, L))
             touched = [a[0]] + ([a[2]] if a[2] != a[0] else [])
         elif op == "write":
             v = slots.get(a[0])
@@ -516,13 +516,20 @@ def oracle_C15_lines(lines, il):
         if ob is None or "STORED" not in ob:
             v.append("step %d: no result for case %d" % (i, k))
             continue
-        exp = ",".join(_c15_repr(T, _c15_conv(U, T, x)) for x in vals[:n]) or "-"
+        moves = f == 7 or (f in (0, 1, 2, 3) and rv)       # deque / reverse iterators (8, 9) copy
+        if T == 21 and U == 20:
+            # Handle(Raw&&) adopts (second word 1), Handle(const Raw&) does not
+            # (the items of a generated range, form 2, are temporaries)
+            exp = ",".join((x % 2 ** 32 + (2 ** 32 if (moves or f == 2) else 0)).to_bytes(8, "little").hex() for x in vals[:n]) or "-"
+        elif T in (20, 21):
+            exp = ",".join((x % 2 ** (8 * (4 if T == 20 else 8))).to_bytes(4 if T == 20 else 8, "little").hex() for x in vals[:n]) or "-"
+        else:
+            exp = ",".join(_c15_repr(T, _c15_conv(U, T, x)) for x in vals[:n]) or "-"
         got = ob["STORED"][0] if ob["STORED"] else "-"
         if got != exp:
             v.append("step %d case %d (stored type %d <- source type %d, form %d%s%s): stored %s, T(source item) is %s" % (
                 i, k, T, U, f, " rvalue" if rv else "", " varying" if var else "", got, exp))
-        if U == 19:
-            moves = f == 7 or (f in (0, 1, 2, 3) and rv)       # deque / reverse iterators (8, 9) copy
+        if U == 19 or (U == 20 and T == 21):
             expm = [1 if (moves and j < n) else 0 for j in range(len(vals))]
             if f == 2:
                 expm = None                # generated items are temporaries
